@@ -195,7 +195,14 @@ class CallMixin:
             rt = self.eng.ptype(rt)
             f = self.uf(name, pts, rt)
             zs = [coerce(a, t).z for a, t in zip(args, pts)]
-            return SV(rt, f(*zs))
+            app = f(*zs)
+            if isinstance(rt, T.Seq):
+                ax = rt.len(app) >= 0
+                bvs = self.involves_bound(zs)
+                if bvs:
+                    ax = self.forall_pat(bvs, ax, app)
+                st.add_axiom(('seqlen', name, app.get_id()), ax)
+            return SV(rt, app)
         raise Unsupported('unknown function %s' % name)
 
     def call_spec(self, sf, args, st, fuel=None):
@@ -544,6 +551,8 @@ class CallMixin:
                 return got
             return ite(z3.Select(has, kz), got, self.ev(n.args[2], st))
         nm = n.args[1].value
+        if isinstance(v.t, T.Ref) and v.t.cls != '$any' and nm in getattr(self.eng.prop, 'always_attrs', ()):
+            return self.getattr(v, nm, st, n)       # attribute with a class-level default: always present
         if isinstance(v.t, T._Str) and ('strattr_' + nm) in self.eng.prop.uf:
             # attribute of a str subclass instance (Text node): uninterpreted "attribute value or default"
             return self.call_spec_or_uf('strattr_' + nm, [v], st)
@@ -595,6 +604,31 @@ class CallMixin:
 
     def bi_next(self, n, st):
         """next((x for x in SEQ if P(x)), default): the first element satisfying P, else default."""
+        if len(n.args) in (1, 2) and not isinstance(n.args[0], ast.GeneratorExp):
+            it = self.ev(n.args[0], st)
+            nx = self.eng.find_method(it.t.cls, '__next__') if isinstance(it.t, T.Ref) and it.t.cls != '$any' else None
+            if nx is None:
+                raise Unsupported('next() on %s' % it.t)
+            self.nonnull(it, st, 'next')
+            if len(n.args) == 1:
+                return self.call_contract(nx, [it], {}, st, n)
+            # next(it, default): StopIteration is replaced by the default
+            stop = nx.raises['StopIteration'][4:]
+            c_stop = self.spec_eval(stop, st.copy(), {'self': it}, old=st.copy())
+            br = st.copy()
+            br.assume(z3.Not(c_stop), True)
+            n0 = len(self.exits)
+            v = self.call_contract(nx, [it], {}, br, n)
+            self.exits[n0:] = [e for e in self.exits[n0:] if e[1] != 'StopIteration']
+            dflt = self.ev(n.args[1], st)
+            for e in br.pc[len(st.pc) + 1:]:
+                st.assume(z3.Implies(z3.Not(c_stop), e))
+            for k in br.heap:
+                x, y = br.heap[k], st.h(k)
+                if x is not y:
+                    st.heap[k] = z3.If(c_stop, y, x)
+            st.axd = {**st.axd, **br.axd}
+            return ite(c_stop, dflt, v)
         if len(n.args) != 2 or not isinstance(n.args[0], ast.GeneratorExp):
             raise Unsupported('next() form')
         g = n.args[0]
